@@ -94,13 +94,18 @@ theorem asciiLinesAux_found {q : List Byte} {k : Nat} (h : findLF q = some k) (x
   rw [asciiLinesAux_noLF _ _ _ h2]
   simp [asciiLinesAux]
 
-/-- the PORT_ASCII loop: all LF-terminated pieces of the text between `text_start` and `text_end` are handed to
-    process_input, in order; what stays has no LF -/
-theorem asciiLoop_exact (fuel : Nat) (s : S) (evs : List Ev) (hl : s.text.length = MAXT) (hse : s.tstart ≤ s.tend)
-    (he : s.tend + 1 ≤ MAXT) (hfuel : countLF (pend s) < fuel) :
-    ∃ s' evs' L, asciiLoop fuel s evs = .ok (s', evs') ∧ s'.text.length = MAXT ∧ s'.tstart ≤ s'.tend ∧
+theorem hasAbort_append (a b : List Ev) : hasAbort (a ++ b) = (hasAbort a || hasAbort b) := by
+  simp [hasAbort, List.any_append]
+
+/-- the PORT_ASCII loop with failing callbacks: the LF-terminated pieces are handed to process_input in order, each
+    exactly once; everything is committed (`text_start` past the line) *before* the callback runs, so when it raises
+    an error the rest of the text is still pending, in order; when the loop ends normally what stays has no LF -/
+theorem asciiLoop_exact {o : Oracle} (hnd : NoDest o) (fuel : Nat) (s : S) (evs : List Ev) (hl : s.text.length = MAXT)
+    (hse : s.tstart ≤ s.tend) (he : s.tend + 1 ≤ MAXT) (hfuel : countLF (pend s) < fuel) :
+    ∃ s' evs' L e, asciiLoop o fuel s evs = .ok (s', evs', e) ∧ s'.text.length = MAXT ∧ s'.tstart ≤ s'.tend ∧
       s'.tend + 1 ≤ MAXT ∧ s'.dec = s.dec ∧ s'.port = s.port ∧ s'.sock = s.sock ∧
-      inputsOf evs' = inputsOf evs ++ L ∧ findLF (pend s') = none ∧
+      inputsOf evs' = inputsOf evs ++ L ∧ e ≠ .dead ∧ (e = .done → findLF (pend s') = none) ∧
+      (hasAbort evs = false → hasAbort evs' = false → e = .done) ∧
       ∀ x, asciiLinesAux [] (pend s ++ x) = L ++ asciiLinesAux [] (pend s' ++ x) := by
   induction fuel generalizing s evs with
   | zero => omega
@@ -112,7 +117,7 @@ theorem asciiLoop_exact (fuel : Nat) (s : S) (evs : List Ev) (hl : s.text.length
     rw [e1]
     cases hf : findLF (pend s) with
     | none =>
-      exact ⟨s, evs, [], rfl, hl, hse, he, rfl, rfl, rfl, by simp, hf, fun x => rfl⟩
+      exact ⟨s, evs, [], _, rfl, hl, hse, he, rfl, rfl, rfl, by simp, by decide, fun _ => hf, fun _ _ => rfl, fun x => rfl⟩
     | some k =>
       have hk := findLF_lt hf
       have hpl : (pend s).length = s.tend - s.tstart := pend_length (by omega)
@@ -124,160 +129,226 @@ theorem asciiLoop_exact (fuel : Nat) (s : S) (evs : List Ev) (hl : s.text.length
       have hlen' : (List.take (s.tstart + k) s.text ++ [0] ++ List.drop (s.tstart + k + ([0] : List Byte).length) s.text).length
           = MAXT := by rw [← hl]; exact writeAt_length (writeAt_ok hw)
       obtain ⟨_, _, hcnt⟩ := findLF_some hf
-      split
-      · rename_i heq
-        have hdrop : (pend s).drop (k + 1) = [] := by
-          apply List.drop_eq_nil_of_le; omega
-        refine ⟨_, _, [(pend s).take k], rfl, hlen', Nat.le_refl _, by dsimp only; omega, rfl, rfl, rfl, ?_, ?_, ?_⟩
-        · rw [inputsOf_append]; rfl
-        · show findLF (slice _ 0 0) = none
-          rw [slice_nil_of_ge _ (Nat.le_refl _)]; rfl
+      have hp1 : ∀ c : Nat, pend
+          ({ s with text := List.take (s.tstart + k) s.text ++ [0] ++ List.drop (s.tstart + k + ([0] : List Byte).length) s.text,
+                    tstart := s.tstart + k + 1, cbCount := c } : S) = (pend s).drop (k + 1) := by
+        intro c
+        show slice _ (s.tstart + k + 1) s.tend = _
+        rw [slice_write_before (by simp) hw, Nat.add_assoc, ← slice_drop]; rfl
+      cases ho : o s.cbCount with
+      | dest => exact absurd ho (hnd _)
+      | err =>
+        dsimp only
+        refine ⟨_, _, [(pend s).take k], _, rfl, hlen', by dsimp only; omega, he, rfl, rfl, rfl, ?_, by decide,
+          (fun hh => by cases hh), ?_, ?_⟩
+        · rw [inputsOf_append, inputsOf_append]; simp [inputsOf]
+        · intro _ hh
+          rw [hasAbort_append] at hh
+          simp only [hasAbort, List.any_cons, List.any_nil, Bool.or_false, Bool.or_eq_false_iff] at hh
+          exact absurd hh.2.2 (by decide)
         · intro x
-          show _ = _ ++ asciiLinesAux [] (slice _ 0 0 ++ x)
-          rw [slice_nil_of_ge _ (Nat.le_refl _), asciiLinesAux_found hf x, hdrop]; rfl
-      · rename_i hne
-        have hp1 : pend
-            ({ s with text := List.take (s.tstart + k) s.text ++ [0] ++ List.drop (s.tstart + k + ([0] : List Byte).length) s.text,
-                      tstart := s.tstart + k + 1 } : S) = (pend s).drop (k + 1) := by
-          show slice _ (s.tstart + k + 1) s.tend = _
-          rw [slice_write_before (by simp) hw, Nat.add_assoc, ← slice_drop]; rfl
-        obtain ⟨s', evs', L, h1, h2, h3, h4, h5, h6, h7, h8, h9, h10⟩ := ih
-          { s with text := List.take (s.tstart + k) s.text ++ [0] ++ List.drop (s.tstart + k + ([0] : List Byte).length) s.text,
-                   tstart := s.tstart + k + 1 } (evs ++ [Ev.input (List.take k (pend s))])
-          hlen' (by dsimp only; omega) he (by rw [hp1]; omega)
-        refine ⟨s', evs', (pend s).take k :: L, h1, h2, h3, h4, h5, h6, h7, ?_, h9, ?_⟩
-        · rw [h8, inputsOf_append]; simp [inputsOf]
-        · intro x
-          rw [asciiLinesAux_found hf x, ← hp1, h10 x]; rfl
+          rw [asciiLinesAux_found hf x, hp1]; rfl
+      | ok =>
+        dsimp only
+        split
+        · rename_i heq
+          have hdrop : (pend s).drop (k + 1) = [] := by
+            apply List.drop_eq_nil_of_le; omega
+          refine ⟨_, _, [(pend s).take k], _, rfl, hlen', Nat.le_refl _, by dsimp only; omega, rfl, rfl, rfl, ?_, by decide,
+            fun _ => ?_, fun h1 _ => rfl, ?_⟩
+          · rw [inputsOf_append]; rfl
+          · show findLF (slice _ 0 0) = none
+            rw [slice_nil_of_ge _ (Nat.le_refl _)]; rfl
+          · intro x
+            show _ = _ ++ asciiLinesAux [] (slice _ 0 0 ++ x)
+            rw [slice_nil_of_ge _ (Nat.le_refl _), asciiLinesAux_found hf x, hdrop]; rfl
+        · rename_i hne
+          obtain ⟨s', evs', L, e, h1, h2, h3, h4, h5, h6, h7, h8, h9, h10, h11, h12⟩ := ih
+            { s with text := List.take (s.tstart + k) s.text ++ [0] ++ List.drop (s.tstart + k + ([0] : List Byte).length) s.text,
+                     tstart := s.tstart + k + 1, cbCount := s.cbCount + 1 } (evs ++ [Ev.input (List.take k (pend s))])
+            hlen' (by dsimp only; omega) he (by rw [hp1]; omega)
+          refine ⟨s', evs', (pend s).take k :: L, e, h1, h2, h3, h4, h5, h6, h7, ?_, h9, h10, ?_, ?_⟩
+          · rw [h8, inputsOf_append]; simp [inputsOf]
+          · intro ha hb
+            exact h11 (by rw [hasAbort_append, ha]; rfl) hb
+          · intro x
+            rw [asciiLinesAux_found hf x, ← hp1 (s.cbCount + 1), h12 x]; rfl
 
-/-- **one PORT_ASCII read while the buffer is not full** -/
-theorem ascii_read_exact {s : S} (h : Inv s) (hp : s.port = .ascii) (hts : s.tstart = 0)
-    (hnl : findLF (pend s) = none) (hok : s.tend + asciiReserve + 1 ≤ MAXT) :
-    ∃ s' evs, getUserData s = .ok (s', evs) ∧ Inv s' ∧ s'.port = .ascii ∧ s'.tstart = 0 ∧ findLF (pend s') = none ∧
-      s'.dec = s.dec ∧
+/-- PORT_ASCII space computation while the pending text does not fill the buffer: the pending text is kept (moved
+    to the front of the buffer if delivered lines were still in front of it) -/
+theorem computeSpaceOther_keep {s : S} (h : Inv s) (hok : s.tend - s.tstart + asciiReserve + 1 ≤ MAXT) :
+    ∃ s1, computeSpaceOther s = .ok (s1, MAXT - s1.tend - asciiReserve) ∧ Inv s1 ∧ pend s1 = pend s ∧
+      s1.tstart = 0 ∧ s1.tend + asciiReserve + 1 ≤ MAXT ∧ s1.dec = s.dec ∧ s1.port = s.port ∧ s1.sock = s.sock ∧
+      s1.cbCount = s.cbCount := by
+  have hlen := h.textLen; have hse := h.se; have hem := h.eMax
+  have har : asciiReserve = 1 := rfl
+  unfold computeSpaceOther
+  rw [if_neg (by omega)]
+  have hsl : (slice s.text s.tstart s.tend).length = s.tend - s.tstart := slice_length _ _ _ (by omega)
+  have hw : 0 + (slice s.text s.tstart s.tend).length ≤ s.text.length := by omega
+  have ht : ∃ t, (if s.tstart > 0 then writeAt s.text 0 (slice s.text s.tstart s.tend) else .ok s.text) = .ok t ∧
+      t.length = MAXT ∧ slice t 0 (s.tend - s.tstart) = pend s := by
+    split
+    · refine ⟨_, writeAt_ok hw, by rw [writeAt_length (writeAt_ok hw)]; exact hlen, ?_⟩
+      rw [← hsl]; simp [slice, pend]
+    · rename_i h0
+      have : s.tstart = 0 := by omega
+      exact ⟨_, rfl, hlen, by rw [this]; simp [pend, this]⟩
+  obtain ⟨t, ht1, ht2, ht3⟩ := ht
+  rw [ht1]
+  dsimp only
+  rw [if_neg (by omega), if_neg (by omega)]
+  exact ⟨_, rfl, ⟨ht2, Nat.zero_le _, by dsimp only; omega, h.dec⟩, ht3, rfl, by dsimp only; omega, rfl, rfl, rfl, rfl⟩
+
+/-- **one PORT_ASCII read while the pending text does not fill the buffer**, callbacks may raise errors -/
+theorem ascii_read_exact {o : Oracle} (hnd : NoDest o) {s : S} (h : Inv s) (hp : s.port = .ascii)
+    (hok : s.tend - s.tstart + asciiReserve + 1 ≤ MAXT) :
+    ∃ s' evs, getUserData o s = .ok (s', evs) ∧ Inv s' ∧ s'.port = .ascii ∧ s'.dec = s.dec ∧
+      (s.sock ≠ [] → hasAbort evs = false → findLF (pend s') = none) ∧
       ∃ n, s'.sock = s.sock.drop n ∧
         ∀ x, asciiLinesAux [] (pend s ++ s.sock.take n ++ x) = inputsOf evs ++ asciiLinesAux [] (pend s' ++ x) := by
-  have hl := h.textLen; have hse := h.se; have hem := h.eMax
   have har : asciiReserve = 1 := rfl
+  obtain ⟨s1, hcs, i1, hp1, hts1, hok1, hd1, hpo1, hso1, _⟩ := computeSpaceOther_keep h hok
+  have hl := i1.textLen; have hse := i1.se; have hem := i1.eMax
   unfold getUserData
   rw [if_neg (by rw [hp]; decide)]
   unfold computeSpace
   rw [hp]
   dsimp only
-  rw [if_neg (by omega), if_neg (by omega)]
+  rw [hcs]
   dsimp only
+  have hpa : s1.port = .ascii := by rw [hpo1]; exact hp
   split
   · rename_i hempty
-    have he : s.sock = [] := by simpa using hempty
-    refine ⟨_, _, rfl, h, hp, hts, hnl, rfl, 0, by simp, fun x => ?_⟩
-    rw [he]; simp [inputsOf]
+    have he : s1.sock = [] := by simpa using hempty
+    refine ⟨_, _, rfl, i1, hpa, hd1, ?_, 0, by rw [hso1]; simp, fun x => ?_⟩
+    · intro hne; rw [← hso1] at hne; exact absurd he hne
+    · rw [hp1]; simp [inputsOf]
   · rename_i hne
-    have hne1 : s.sock ≠ [] := by simpa using hne
-    have htn : (s.sock.take (MAXT - s.tend - asciiReserve)) ≠ [] := by
-      cases hs : s.sock with
+    have hne1 : s1.sock ≠ [] := by simpa using hne
+    have htn : (s1.sock.take (MAXT - s1.tend - asciiReserve)) ≠ [] := by
+      cases hs : s1.sock with
       | nil => exact absurd hs hne1
       | cons a r =>
-        have : MAXT - s.tend - asciiReserve = (MAXT - s.tend - asciiReserve - 1) + 1 := by omega
+        have : MAXT - s1.tend - asciiReserve = (MAXT - s1.tend - asciiReserve - 1) + 1 := by omega
         rw [this]; simp
     rw [if_neg (by simpa using htn)]
-    have htake : (s.sock.take (MAXT - s.tend - asciiReserve)).length ≤ MAXT - s.tend - asciiReserve := by simp; omega
+    have htake : (s1.sock.take (MAXT - s1.tend - asciiReserve)).length ≤ MAXT - s1.tend - asciiReserve := by simp; omega
     rw [if_neg (by omega)]
-    have hw1 : s.tend + (s.sock.take (MAXT - s.tend - asciiReserve)).length ≤ s.text.length := by omega
+    have hw1 : s1.tend + (s1.sock.take (MAXT - s1.tend - asciiReserve)).length ≤ s1.text.length := by omega
     split
-    · rename_i hh; rw [hp] at hh; cases hh
+    · rename_i hh; rw [hpa] at hh; cases hh
     rotate_left
-    · rename_i hh; rw [hp] at hh; cases hh
-    · rename_i hh; rw [hp] at hh; cases hh
+    · rename_i hh; rw [hpa] at hh; cases hh
+    · rename_i hh; rw [hpa] at hh; cases hh
     rw [writeAt_ok hw1]
     dsimp only
     have hl2 := writeAt_length (writeAt_ok hw1)
     have hp0 : pend
-        ({ s with sock := List.drop (MAXT - s.tend - asciiReserve) s.sock,
-                  text := List.take s.tend s.text ++ s.sock.take (MAXT - s.tend - asciiReserve) ++
-                    List.drop (s.tend + (s.sock.take (MAXT - s.tend - asciiReserve)).length) s.text,
-                  tend := s.tend + (s.sock.take (MAXT - s.tend - asciiReserve)).length } : S)
-        = pend s ++ s.sock.take (MAXT - s.tend - asciiReserve) := slice_write_append hse hw1
-    have hcnt : countLF (pend s ++ s.sock.take (MAXT - s.tend - asciiReserve)) <
-        (s.sock.take (MAXT - s.tend - asciiReserve)).length + 1 := by
-      rw [countLF_append, (findLF_none hnl).1]
-      have := countLF_le (s.sock.take (MAXT - s.tend - asciiReserve)); omega
-    obtain ⟨s2, evs2, L, h1, h2, h3, h4, h5, h6, h7, h8, h9, h10⟩ := asciiLoop_exact
-      ((s.sock.take (MAXT - s.tend - asciiReserve)).length + 1)
-      { s with sock := List.drop (MAXT - s.tend - asciiReserve) s.sock,
-               text := List.take s.tend s.text ++ s.sock.take (MAXT - s.tend - asciiReserve) ++
-                 List.drop (s.tend + (s.sock.take (MAXT - s.tend - asciiReserve)).length) s.text,
-               tend := s.tend + (s.sock.take (MAXT - s.tend - asciiReserve)).length } []
+        ({ s1 with sock := List.drop (MAXT - s1.tend - asciiReserve) s1.sock,
+                   text := List.take s1.tend s1.text ++ s1.sock.take (MAXT - s1.tend - asciiReserve) ++
+                     List.drop (s1.tend + (s1.sock.take (MAXT - s1.tend - asciiReserve)).length) s1.text,
+                   tend := s1.tend + (s1.sock.take (MAXT - s1.tend - asciiReserve)).length } : S)
+        = pend s1 ++ s1.sock.take (MAXT - s1.tend - asciiReserve) := slice_write_append hse hw1
+    have hp1l : (pend s1).length = s1.tend - s1.tstart := pend_length (by omega)
+    have hcnt : countLF (pend s1 ++ s1.sock.take (MAXT - s1.tend - asciiReserve)) <
+        s1.tend - s1.tstart + (s1.sock.take (MAXT - s1.tend - asciiReserve)).length + 1 := by
+      have := countLF_le (pend s1 ++ s1.sock.take (MAXT - s1.tend - asciiReserve))
+      rw [List.length_append, hp1l] at this; omega
+    obtain ⟨s2, evs2, L, e, h1, h2, h3, h4, h5, h6, h7, h8, h9, h10, h11, h12⟩ := asciiLoop_exact hnd
+      (s1.tend - s1.tstart + (s1.sock.take (MAXT - s1.tend - asciiReserve)).length + 1)
+      { s1 with sock := List.drop (MAXT - s1.tend - asciiReserve) s1.sock,
+                text := List.take s1.tend s1.text ++ s1.sock.take (MAXT - s1.tend - asciiReserve) ++
+                  List.drop (s1.tend + (s1.sock.take (MAXT - s1.tend - asciiReserve)).length) s1.text,
+                tend := s1.tend + (s1.sock.take (MAXT - s1.tend - asciiReserve)).length } []
       (by dsimp only; rw [hl2]; exact hl) (by dsimp only; omega) (by dsimp only; omega) (by rw [hp0]; exact hcnt)
     rw [h1]
-    dsimp only
     have hL : inputsOf evs2 = L := by simpa [inputsOf] using h8
-    split
-    · rename_i hpos
-      rw [if_neg (by omega)]
-      have hsl : (slice s2.text s2.tstart s2.tend).length = s2.tend - s2.tstart := slice_length _ _ _ (by omega)
-      have hw3 : 0 + (slice s2.text s2.tstart s2.tend).length ≤ s2.text.length := by omega
-      rw [writeAt_ok hw3]
-      dsimp only
-      have hp3 : pend
-          ({ s2 with text := List.take 0 s2.text ++ slice s2.text s2.tstart s2.tend ++
-                       List.drop (0 + (slice s2.text s2.tstart s2.tend).length) s2.text,
-                     tend := s2.tend - s2.tstart, tstart := 0 } : S)
-          = pend s2 := by
-        show slice _ 0 (s2.tend - s2.tstart) = _
-        rw [← hsl]; simp [slice, pend]
-      refine ⟨_, _, rfl, ⟨?_, ?_, ?_, ?_⟩, by rw [h6]; exact hp, rfl, ?_, ?_, MAXT - s.tend - asciiReserve, ?_, ?_⟩
-      · dsimp only; rw [writeAt_length (writeAt_ok hw3)]; exact h2
-      · dsimp only; omega
-      · dsimp only; omega
-      · dsimp only; rw [h5]; exact h.dec
-      · rw [hp3]; exact h9
-      · dsimp only; rw [h5]
-      · dsimp only; rw [h7]
-      · intro x
-        rw [hp3, inputsOf_append, hL]
-        have := h10 x
-        rw [hp0] at this
-        simpa [inputsOf] using this
-    · rename_i hz
-      have hz0 : s2.tstart = 0 := by omega
-      refine ⟨_, _, rfl, ⟨h2, h3, h4, by rw [h5]; exact h.dec⟩, by rw [h6]; exact hp, hz0, h9, by rw [h5], MAXT - s.tend - asciiReserve, h7, ?_⟩
+    have hd2 : DecInv s2.dec := by rw [h5]; exact i1.dec
+    have hpre : ∀ evs : List Ev, hasAbort ([Ev.ask (MAXT - s1.tend - asciiReserve)] ++
+        [Ev.rx (s1.sock.take (MAXT - s1.tend - asciiReserve))] ++ evs) = hasAbort evs := by
+      intro evs; rw [hasAbort_append]; rfl
+    have hlines : ∀ x, asciiLinesAux [] (pend s ++ s.sock.take (MAXT - s1.tend - asciiReserve) ++ x) =
+        L ++ asciiLinesAux [] (pend s2 ++ x) := by
       intro x
-      rw [inputsOf_append, hL]
-      have := h10 x
-      rw [hp0] at this
-      simpa [inputsOf] using this
+      have := h12 x
+      rw [hp0, hp1, hso1] at this
+      exact this
+    cases e with
+    | dead => exact absurd rfl h9
+    | aborted =>
+      refine ⟨_, _, rfl, ⟨h2, h3, h4, hd2⟩, by rw [h6]; exact hpa, by rw [h5]; exact hd1, ?_,
+        MAXT - s1.tend - asciiReserve, by rw [h7]; dsimp only; rw [hso1], ?_⟩
+      · intro _ hab
+        rw [hpre] at hab
+        have := h11 rfl hab
+        cases this
+      · intro x; rw [inputsOf_append, hL]; simpa [inputsOf] using hlines x
+    | done =>
+      dsimp only
+      split
+      · rename_i hpos
+        rw [if_neg (by omega)]
+        have hsl : (slice s2.text s2.tstart s2.tend).length = s2.tend - s2.tstart := slice_length _ _ _ (by omega)
+        have hw3 : 0 + (slice s2.text s2.tstart s2.tend).length ≤ s2.text.length := by omega
+        rw [writeAt_ok hw3]
+        dsimp only
+        have hp3 : pend
+            ({ s2 with text := List.take 0 s2.text ++ slice s2.text s2.tstart s2.tend ++
+                         List.drop (0 + (slice s2.text s2.tstart s2.tend).length) s2.text,
+                       tend := s2.tend - s2.tstart, tstart := 0 } : S)
+            = pend s2 := by
+          show slice _ 0 (s2.tend - s2.tstart) = _
+          rw [← hsl]; simp [slice, pend]
+        refine ⟨_, _, rfl, ⟨?_, ?_, ?_, hd2⟩, by rw [h6]; exact hpa, by dsimp only; rw [h5]; exact hd1, ?_,
+          MAXT - s1.tend - asciiReserve, by dsimp only; rw [h7]; dsimp only; rw [hso1], ?_⟩
+        · dsimp only; rw [writeAt_length (writeAt_ok hw3)]; exact h2
+        · dsimp only; omega
+        · dsimp only; omega
+        · intro _ _; rw [hp3]; exact h10 rfl
+        · intro x; rw [hp3, inputsOf_append, hL]; simpa [inputsOf] using hlines x
+      · refine ⟨_, _, rfl, ⟨h2, h3, h4, hd2⟩, by rw [h6]; exact hpa, by rw [h5]; exact hd1, fun _ _ => h10 rfl,
+          MAXT - s1.tend - asciiReserve, by rw [h7]; dsimp only; rw [hso1], ?_⟩
+        intro x; rw [inputsOf_append, hL]; simpa [inputsOf] using hlines x
 
-/-- invariant of a clean PORT_ASCII run -/
+theorem asciiLinesAux_pending {q : List Byte} (h : findLF q = none) : asciiLinesAux [] q = [] := by
+  have := asciiLinesAux_noLF q [] [] (findLF_none h).2
+  simp only [List.append_nil] at this
+  rw [this]; rfl
+
+/-- invariant of a clean PORT_ASCII run whose callbacks may raise errors -/
 structure AsciiK (f : F) : Prop where
   inv : Inv f.s
   port : f.s.port = .ascii
   single : f.s.dec.fl.single = false
   flag : f.s.dec.fl.cmdInBuf = false
-  ts0 : f.s.tstart = 0
-  nolf : findLF (pend f.s) = none
+  /-- every complete line exactly once, in order: the lines handed to process_input so far (whether or not it
+      failed), then the lines of (pending text ++ future bytes), are the lines of (received ++ future bytes) -/
   lines : ∀ x, f.delivered ++ asciiLinesAux [] (pend f.s ++ x) = asciiLines (f.received ++ x)
+  /-- unless the last read was left through an error, no complete line is waiting in the buffer -/
+  fin : f.aborted = false → findLF (pend f.s) = none
   sentEq : f.received ++ f.s.sock = f.sent
 
 theorem asciiK_init : AsciiK { s := S.init .ascii } := by
   have hp : pend (S.init .ascii) = [] := slice_nil_of_ge _ (Nat.le_refl _)
-  refine ⟨init_inv _, rfl, rfl, rfl, rfl, by rw [hp]; rfl, ?_, rfl⟩
+  refine ⟨init_inv _, rfl, rfl, rfl, ?_, fun _ => by rw [hp]; rfl, rfl⟩
   intro x
   show [] ++ asciiLinesAux [] (pend (S.init .ascii) ++ x) = asciiLines ([] ++ x)
   rw [hp]; rfl
 
-theorem asciiK_step {f f' : F} (op : FOp) (k : f.clean = true → AsciiK f) (h : fStep f op = .ok f') :
-    f'.clean = true → AsciiK f' := by
+theorem asciiK_step {o : Oracle} (hnd : NoDest o) {f f' : F} (op : FOp) (k : f.clean = true → AsciiK f)
+    (h : fStep o f op = .ok f') : f'.clean = true → AsciiK f' := by
   intro hc'
   cases op with
   | send b =>
     simp only [fStep] at h
     injection h with h; subst h
     have k := k hc'
-    exact ⟨⟨k.inv.textLen, k.inv.se, k.inv.eMax, k.inv.dec⟩, k.port, k.single, k.flag, k.ts0, k.nolf, k.lines,
+    exact ⟨⟨k.inv.textLen, k.inv.se, k.inv.eMax, k.inv.dec⟩, k.port, k.single, k.flag, k.lines, k.fin,
       by show f.received ++ (f.s.sock ++ b) = f.sent ++ b; rw [← List.append_assoc, k.sentEq]⟩
   | read =>
     simp only [fStep] at h
-    cases hg : getUserData f.s with
+    cases hg : getUserData o f.s with
     | error e => rw [hg] at h; cases h
     | ok res =>
       obtain ⟨s', evs⟩ := res
@@ -285,20 +356,43 @@ theorem asciiK_step {f f' : F} (op : FOp) (k : f.clean = true → AsciiK f) (h :
       injection h with h; subst h
       simp only [Bool.and_eq_true] at hc'
       have k := k hc'.1
-      have hok : f.s.tend + asciiReserve + 1 ≤ MAXT := by
+      have hok : f.s.tend - f.s.tstart + asciiReserve + 1 ≤ MAXT := by
         have := hc'.2; simp only [readOK, k.port, decide_eq_true_eq] at this; exact this
-      obtain ⟨s2, evs2, hg2, i2, p2, t2, n2, d2, n, hs', hl⟩ := ascii_read_exact k.inv k.port k.ts0 k.nolf hok
+      obtain ⟨s2, evs2, hg2, i2, p2, d2, fin2, n, hs', hl⟩ := ascii_read_exact hnd k.inv k.port hok
       rw [hg] at hg2
       injection hg2 with hg2
       injection hg2 with e1 e2
       subst e1; subst e2
       have hrec : f.s.sock.take (f.s.sock.length - s'.sock.length) = f.s.sock.take n := by
         rw [hs']; exact take_len_sub_drop _ _
-      refine ⟨i2, p2, by rw [d2]; exact k.single, by rw [d2]; exact k.flag, t2, n2, ?_, ?_⟩
+      refine ⟨i2, p2, by rw [d2]; exact k.single, by rw [d2]; exact k.flag, ?_, ?_, ?_⟩
       · intro x
         show (f.delivered ++ inputsOf evs) ++ asciiLinesAux [] (pend s' ++ x) = asciiLines ((f.received ++ _) ++ x)
         rw [hrec, List.append_assoc, ← hl x, List.append_assoc, List.append_assoc]
         exact k.lines (f.s.sock.take n ++ x)
+      · show (if f.s.sock.isEmpty then f.aborted else hasAbort evs) = false → _
+        intro hab
+        cases hse : f.s.sock with
+        | nil =>
+          rw [hse] at hab
+          have hfa : f.aborted = false := by simpa using hab
+          have h0 := hl []
+          have h1 := k.fin hfa
+          -- nothing was read: the pending text is unchanged up to delivered lines, of which there are none
+          rw [hse] at h0
+          simp only [List.take_nil, List.append_nil] at h0
+          rw [asciiLinesAux_pending h1] at h0
+          cases hf : findLF (pend s') with
+          | none => rfl
+          | some j =>
+            have := asciiLinesAux_found hf []
+            simp only [List.append_nil] at this
+            rw [this] at h0
+            have := congrArg List.length h0
+            simp at this
+        | cons a r =>
+          rw [hse] at hab
+          exact fin2 (by rw [hse]; simp) (by simpa using hab)
       · show (f.received ++ _) ++ s'.sock = f.sent
         rw [hrec, hs', List.append_assoc, List.take_append_drop]; exact k.sentEq
   | extract =>
@@ -317,25 +411,20 @@ theorem asciiK_step {f f' : F} (op : FOp) (k : f.clean = true → AsciiK f) (h :
       injection hg2 with hg2
       injection hg2 with e1 e2
       subst e1; subst e2
-      exact ⟨k.inv, k.port, k.single, k.flag, k.ts0, k.nolf,
-        by intro x; show (f.delivered ++ []) ++ _ = _; rw [List.append_nil]; exact k.lines x, k.sentEq⟩
+      exact ⟨k.inv, k.port, k.single, k.flag,
+        by intro x; show (f.delivered ++ []) ++ _ = _; rw [List.append_nil]; exact k.lines x, k.fin, k.sentEq⟩
 
-theorem asciiK_run (ops : List FOp) : ∀ f f', (f.clean = true → AsciiK f) → fRun f ops = .ok f' →
-    (f'.clean = true → AsciiK f') := by
+theorem asciiK_run {o : Oracle} (hnd : NoDest o) (ops : List FOp) : ∀ f f', (f.clean = true → AsciiK f) →
+    fRun o f ops = .ok f' → (f'.clean = true → AsciiK f') := by
   induction ops with
   | nil => intro f f' k h; simp only [fRun] at h; injection h with h; subst h; exact k
   | cons op ops ih =>
     intro f f' k h
     simp only [fRun] at h
-    cases hs : fStep f op with
+    cases hs : fStep o f op with
     | error e => rw [hs] at h; cases h
     | ok f1 =>
       rw [hs] at h
-      exact ih f1 f' (asciiK_step op k hs) h
-
-theorem asciiLinesAux_pending {q : List Byte} (h : findLF q = none) : asciiLinesAux [] q = [] := by
-  have := asciiLinesAux_noLF q [] [] (findLF_none h).2
-  simp only [List.append_nil] at this
-  rw [this]; rfl
+      exact ih f1 f' (asciiK_step hnd op k hs) h
 
 end NV.C13
